@@ -171,6 +171,8 @@ def instantiate(I, ctx, fr, cv, args, kwargs, node, star=None):
         raise Unsupported('builtin class %s' % short, node)
     if cv.node is not None:
         return I.engine.instantiate_repo(ctx, fr, cv, args, kwargs, node, star)
+    if I.classes.has(name) and I.classes.static_sub(name, 'builtins.BaseException'):
+        return I.make_exc(ctx, name, args)      # an exception class of a dependency
     return I.engine.call_external(ctx, fr, VExternal(name), args, kwargs, node, star, is_class=True)
 
 
